@@ -244,6 +244,33 @@ def _deep_eq(a, b):
 
 
 # ---------------------------------------------------------------- correspondence (real vs model)
+CASE_LIMIT = 30      # seconds one program may take on the real implementation
+
+
+class CaseTimeout(BaseException):
+    """not an Exception: must not be swallowed by an `except Exception` on the way"""
+
+
+def timed(fn, *args, default=None, limit=CASE_LIMIT, **kw):
+    """fn(*args) or `default` if it has not returned after `limit` seconds (worker processes only: uses
+    SIGALRM).  A change to the implementation can make one call loop for ever -- e.g. a walk over the
+    cyclic AST of a self-containing list; the program is then reported, not waited for."""
+    import signal
+
+    def on_alarm(signum, frame):
+        raise CaseTimeout()
+
+    old = signal.signal(signal.SIGALRM, on_alarm)
+    signal.setitimer(signal.ITIMER_REAL, limit)
+    try:
+        return fn(*args, **kw)
+    except CaseTimeout:
+        return default
+    finally:
+        signal.setitimer(signal.ITIMER_REAL, 0)
+        signal.signal(signal.SIGALRM, old)
+
+
 def real_side(data):
     try:
         ops = vmlib.abstract_ops(data)
@@ -251,7 +278,8 @@ def real_side(data):
         return None
     if ops is None:
         return None
-    return {"ops": sx(ops), "fk": vmlib.real_fk_run(data), "vm": vmlib.real_vm_run(data)}
+    return {"ops": sx(ops), "fk": timed(vmlib.real_fk_run, data, default="TIMEOUT (no answer after %d s)" % CASE_LIMIT),
+            "vm": timed(vmlib.real_vm_run, data, default="TIMEOUT (no answer after %d s)" % CASE_LIMIT)}
 
 
 def _work(batch):
